@@ -349,6 +349,59 @@ fn parse_oracle(src: &str) -> PRes {
 #[derive(Clone, Debug, PartialEq)]
 enum ERes { Trap(String), Err(String), Ok(String), Miss }
 
+/// What loader::emit_js looks at before printing, computed WITHOUT the loader: the documents are parsed
+/// from the state's sources, `resolve_operation_imports` is called directly with a resolver over exactly
+/// those files (PathBuf equality, like the task's HashMap), and from the resolved document the names of its
+/// fragment definitions and of its fragment spreads (definitions in order, selection sets depth-first: the
+/// order in which emit_js reports the first undefined one) are extracted.
+#[derive(Clone, Debug, PartialEq)]
+enum RRes { Err(String), Ok(Vec<String>, Vec<String>), Panic(String) }
+
+fn resolve_oracle(files: &[String], sources: &[String], key: &EKey) -> RRes {
+    use nitrogql_ast::{OperationDocument, operation::ExecutableDefinition, selection_set::{Selection, SelectionSet}};
+    use nitrogql_semantics::{OperationExtension, OperationResolver};
+    struct Res<'a, 'src>(&'a [(PathBuf, OperationDocument<'src>, OperationExtension<'src>)]);
+    impl<'a, 'src> OperationResolver<'src> for Res<'a, 'src> {
+        fn resolve(&self, path: &Path) -> Option<(&OperationDocument<'src>, &OperationExtension<'src>)> {
+            self.0.iter().find(|(p, _, _)| p.as_path() == path).map(|(_, d, e)| (d, e))
+        }
+    }
+    fn spreads_of(ss: &SelectionSet, out: &mut Vec<String>) {
+        for sel in ss.selections.iter() {
+            match sel {
+                Selection::Field(f) => if let Some(inner) = f.selection_set.as_ref() { spreads_of(inner, out) },
+                Selection::FragmentSpread(sp) => out.push(sp.fragment_name.name.to_string()),
+                Selection::InlineFragment(fr) => spreads_of(&fr.selection_set, out),
+            }
+        }
+    }
+    let (files, sources, key) = (files.to_vec(), sources.to_vec(), key.clone());
+    let r = catch(move || {
+        let mut parsed = vec![];
+        for (f, s) in key.1.iter() {
+            let doc = match nitrogql_parser::parse_operation_document(&sources[*s]) { Ok(d) => d, Err(_) => return RRes::Panic("state holds a source that does not parse".into()) };
+            let (doc, ext) = match nitrogql_semantics::resolve_operation_extensions(doc) { Ok(x) => x, Err(_) => return RRes::Panic("state holds a source whose extensions do not resolve".into()) };
+            parsed.push((PathBuf::from(&files[*f]), doc, ext));
+        }
+        let root = PathBuf::from(&files[key.0]);
+        let (_, rd, re) = &parsed[0];
+        match nitrogql_semantics::resolve_operation_imports((root.as_path(), rd, re), &Res(&parsed)) {
+            Err(e) => { let pe: nitrogql_error::PositionedError = e.into(); RRes::Err(format!("{}", pe.into_inner())) }
+            Ok(doc) => {
+                let mut defs = vec![]; let mut spreads = vec![];
+                for d in doc.definitions.iter() {
+                    match d {
+                        ExecutableDefinition::OperationDefinition(o) => spreads_of(&o.selection_set, &mut spreads),
+                        ExecutableDefinition::FragmentDefinition(f) => { defs.push(f.name.name.to_string()); spreads_of(&f.selection_set, &mut spreads) }
+                    }
+                }
+                RRes::Ok(defs, spreads)
+            }
+        }
+    });
+    match r { Ok(x) => x, Err(p) => RRes::Panic(p) }
+}
+
 // ------------------------------------------------------------------------------------------
 // pools
 
@@ -384,6 +437,10 @@ fn source_pool() -> Vec<String> {
         /* 21 */ "fragment F on Q { f ...Missing }",
         /* 22 */ "{ a { x } }",
         /* 23 */ "query A { a(s: \"\\uD800\") }",
+        /* 24 */ "#import F, F from \"./b.graphql\"\nquery A { ...F }",
+        /* 25 */ "query A { a { ... on T { b { ...Deep } } ...F } }\nfragment F on Q { ...Other }",
+        /* 26 */ "query A { a(s: \"\\uD83D\\uDE00 \\u{1F600}\") }",
+        /* 27 */ "query A { a(s: \"\\u{110000}\") }",
     ].iter().map(|s| s.to_string()).collect()
 }
 
@@ -491,7 +548,7 @@ fn fresh_history(k: &EKey) -> Vec<Call> {
 
 fn gen_random(rng: &mut Rng, nfiles: usize, nsources: usize, maxlen: usize) -> Vec<Call> {
     // typical sources for a file index (so that imports get satisfied reasonably often)
-    let typical: [&[usize]; 10] = [&[0, 1, 5, 6, 8, 12, 16, 17, 19, 20], &[2, 3, 7, 18, 21], &[4, 18], &[9, 2], &[1, 5, 0], &[2, 3, 18], &[4], &[0, 1], &[0, 2], &[1, 2]];
+    let typical: [&[usize]; 10] = [&[0, 1, 5, 6, 8, 12, 16, 17, 19, 20, 23, 24, 25, 26, 27], &[2, 3, 7, 18, 21], &[4, 18], &[9, 2], &[1, 5, 0], &[2, 3, 18], &[4], &[0, 1], &[0, 2], &[1, 2]];
     let n = rng.range(1, maxlen);
     let mut h = vec![];
     let mut inits = 0u64;
@@ -584,7 +641,13 @@ fn main() {
     let mut origin: Vec<&'static str> = vec![];
     // corpus: witnesses of the known findings and the three scripted runs of loader.rs's tests
     let corpus: Vec<Vec<Call>> = vec![
-        vec![Call::Initiate(0, 12), Call::Required(1), Call::ReadResult, Call::Emit(1)],
+        // former aborts (fixed by /repo a4a3647, 539df4b, 3dc6a57): now error results, and the task table stays consistent
+        vec![Call::Initiate(0, 12), Call::Required(1), Call::ReadResult, Call::Emit(1), Call::ReadResult, Call::Load(1, 1, 21), Call::Emit(1), Call::ReadResult,
+             Call::Load(1, 0, 1), Call::Emit(1), Call::ReadResult, Call::Load(1, 1, 2), Call::Emit(1), Call::ReadResult, Call::Free(1), Call::Emit(1), Call::ReadResult],
+        vec![Call::Initiate(0, 23), Call::ReadResult, Call::Initiate(0, 27), Call::ReadResult, Call::Initiate(0, 26), Call::Required(1), Call::ReadResult, Call::Emit(1), Call::ReadResult, Call::Required(2), Call::ReadResult],
+        vec![Call::Initiate(0, 0), Call::Load(1, 1, 23), Call::ReadResult, Call::Load(1, 0, 23), Call::ReadResult, Call::Required(1), Call::ReadResult, Call::Emit(1), Call::ReadResult],
+        vec![Call::Initiate(0, 24), Call::Emit(1), Call::ReadResult, Call::Load(1, 1, 2), Call::Emit(1), Call::ReadResult, Call::Load(1, 1, 4), Call::Emit(1), Call::ReadResult],
+        vec![Call::Initiate(0, 25), Call::Emit(1), Call::ReadResult],
         vec![Call::Initiate(0, 13)],
         vec![Call::Initiate(0, 0), Call::Load(1, 1, 13)],
         vec![Call::ReadResult],
@@ -642,6 +705,9 @@ fn main() {
             ERes::Trap(am.clone().unwrap_or_default())
         } else { ERes::Miss }
     }).collect();
+
+    // 4b. the staged view of every emit state, from the library crates (not through the loader)
+    let rres: Vec<RRes> = ekeys.iter().map(|k| resolve_oracle(&files, &sources, k)).collect();
 
     // 5. valgrind memcheck on a sample of histories (quick: small, thorough: larger); memcheck errors are
     //    direct property failures ("no call reads or frees memory it does not own").  When a batch reports
@@ -722,9 +788,16 @@ fn main() {
         ERes::Ok(m) => format!("EOk {}", names[m]),
         ERes::Miss => "EErr (s \"<no emit oracle entry>\")".to_string(),
     };
-    for (k, (key, e)) in ekeys.iter().zip(eres.iter()).enumerate() {
-        header.push_str(&format!("Definition e{} : str * list (str * str) * eresult := (f{}, {}, {}).\n", k, key.0,
-            coq_list(&key.1, |(f, s)| format!("(f{}, s{})", f, s)), coq_eres(e)));
+    let coq_rres = |r: &RRes, e: &ERes| match r {
+        RRes::Err(m) => format!("RErr {}", names.get(m).cloned().unwrap_or_else(|| coq_str(m))),
+        // the module text is the fresh instance's when it emitted one (print_js is not reachable from outside the loader)
+        RRes::Ok(d, sp) => format!("ROk {} {} {}", coq_list(d, |x| coq_str(x)), coq_list(sp, |x| coq_str(x)),
+            match e { ERes::Ok(js) => names[js].clone(), _ => "(s \"<the fresh instance emitted no module>\")".to_string() }),
+        RRes::Panic(m) => format!("RErr {}", coq_str(&format!("<resolve oracle failed: {}>", m))),
+    };
+    for (k, ((key, e), r)) in ekeys.iter().zip(eres.iter()).zip(rres.iter()).enumerate() {
+        header.push_str(&format!("Definition e{} : str * list (str * str) * rresult * eresult := (f{}, {}, {}, {}).\n", k, key.0,
+            coq_list(&key.1, |(f, s)| format!("(f{}, s{})", f, s)), coq_rres(r, e), coq_eres(e)));
     }
     let mut cases = Cases::new(&header, "case", "agree", "holds", if thorough { 1500 } else { 400 });
     let mut distinct: HashSet<Vec<Call>> = HashSet::new();
@@ -822,6 +895,11 @@ fn main() {
             "distinct_emit_states_run_on_a_fresh_instance": ekeys.len(),
             "emit_oracle": {"ok": eres.iter().filter(|e| matches!(e, ERes::Ok(_))).count(), "error": eres.iter().filter(|e| matches!(e, ERes::Err(_))).count(),
                             "abort": eres.iter().filter(|e| matches!(e, ERes::Trap(_))).count(), "missing": eres.iter().filter(|e| matches!(e, ERes::Miss)).count()},
+            "resolve_oracle_(library_crates)": {
+                "resolution_error": rres.iter().filter(|r| matches!(r, RRes::Err(_))).count(),
+                "resolved_with_an_undefined_spread": rres.iter().filter(|r| matches!(r, RRes::Ok(d, sp) if sp.iter().any(|n| !d.contains(n)))).count(),
+                "resolved_all_spreads_defined": rres.iter().filter(|r| matches!(r, RRes::Ok(d, sp) if sp.iter().all(|n| d.contains(n)))).count(),
+                "failed": rres.iter().filter(|r| matches!(r, RRes::Panic(_))).count()},
             "parse_oracle": {"ok": pres.iter().filter(|p| matches!(p, PRes::Ok(_))).count(), "error": pres.iter().filter(|p| matches!(p, PRes::Err(_))).count(),
                              "panic": pres.iter().filter(|p| matches!(p, PRes::Trap(_))).count()},
             "abort_classes": abort_classes,
